@@ -100,6 +100,13 @@ structure RxnSlot where
   objf : Rat
   objr : Rat
 
+/-- everything the state holds under the id of one metabolite: membership, its solver row, its back-references -/
+structure MetSlot where
+  hasM : Bool
+  hasC : Bool
+  coRow : Id → Rat
+  mrRow : Id → Bool
+
 /-- closures registered on the context stack, defunctionalised -/
 inductive Undo where
   | rawSetLb (r : Id) (v : EB)
@@ -111,6 +118,9 @@ inductive Undo where
   | addMetsRaw (r : Id) (ps : List (Id × Rat)) (combine : Bool)     -- add_metabolites(…, reversibly=False)
   | readdRxn (r : Id) (mrCol grCol : Id → Bool)   -- undo of remove_reactions([r]): the reaction, its two variables and the back-references return
   | putSlot (r : Id) (listed : Bool) (k : RxnSlot)   -- undo of add_reactions([new reaction]): what was held under these names before
+  | putMetSlot (m : Id) (k : MetSlot)   -- undo of Model.add_metabolites / remove_metabolites: the metabolite and its solver row as they were
+  | populate (r : Id)                   -- `_populate_solver([reaction])`
+  | imul (r : Id) (k : Rat)             -- `reaction.__imul__(1 / coefficient)`
 
 structure Sys where
   s : St
@@ -253,6 +263,45 @@ def newSlot (lb ub : EB) (ps : List (Id × Rat)) : RxnSlot :=
 
 def addRxnRaw (s : St) (r : Id) (lb ub : EB) (ps : List (Id × Rat)) : St := putSlot s r true (newSlot lb ub ps)
 
+/-! ### adding / removing a metabolite of the model (`Model.add_metabolites([Metabolite(m)])`, `Model.remove_metabolites([m])`) -/
+
+def getMetSlot (s : St) (m : Id) : MetSlot := { hasM := s.hasM m, hasC := s.hasC m, coRow := s.co m, mrRow := s.mr m }
+
+def putMetSlot (s : St) (m : Id) (k : MetSlot) : St :=
+  { s with hasM := upd s.hasM m k.hasM, hasC := upd s.hasC m k.hasC,
+           co := fun x v => if x = m then k.coRow v else s.co x v,
+           mr := fun x r => if x = m then k.mrRow r else s.mr x r }
+
+/-- a new `Metabolite(m)` joins the model: it is listed, lists no reaction, and gets an empty steady-state row (`Constraint(Zero, name=m, lb=0, ub=0)`)
+    unless the solver already holds a constraint of that name -/
+def addMetRaw (s : St) (m : Id) : St :=
+  putMetSlot s m { hasM := true, hasC := true, coRow := if s.hasC m then s.co m else fun _ => 0, mrRow := fun _ => false }
+
+/-- the metabolite and its row leave the model (after the loop over its reactions) -/
+def dropMetRaw (s : St) (m : Id) : St :=
+  putMetSlot s m { hasM := false, hasC := false, coRow := s.co m, mrRow := s.mr m }
+
+/-! ### scaling a reaction (`reaction *= k`) -/
+
+/-- `self._metabolites = {met: value * coefficient …}` -/
+def scaleSt (s : St) (r : Id) (k : Rat) : St :=
+  { s with st := fun x m => if x = r then s.st r m * k else s.st x m }
+
+/-- `model._populate_solver([reaction])` for a reaction whose variables exist: the column of the reaction is rewritten in the row of each of
+    its metabolites, the variable boxes are re-derived -/
+def populateRaw (s : St) (r : Id) : St :=
+  updateVariableBounds
+    { s with co := fun m v => if s.st r m ≠ 0 then (if v = r then s.st r m else if v = s.rev r then -(s.st r m) else s.co m v) else s.co m v } r
+
+/-- `reaction.__imul__(k)` with no context open (this is what the undo entry runs) -/
+def imulRaw (s : St) (r : Id) (k : Rat) : Except Err St :=
+  let s1 := scaleSt s r k
+  if k < 0 then
+    match rawSetBounds s1 r (s1.ub r).neg (s1.lb r).neg with
+    | .ok s2 => .ok (populateRaw s2 r)
+    | .error e => .error e
+  else .ok (populateRaw s1 r)
+
 /-! ### undo -/
 
 def runUndo (s : St) : Undo → Except Err St
@@ -265,6 +314,9 @@ def runUndo (s : St) : Undo → Except Err St
   | .addMetsRaw r ps combine => .ok (addMetsRaw s r ps combine)
   | .readdRxn r mrCol grCol => .ok (readdRxnRaw s r mrCol grCol)
   | .putSlot r listed k => .ok (putSlot s r listed k)
+  | .putMetSlot m k => .ok (putMetSlot s m k)
+  | .populate r => .ok (populateRaw s r)
+  | .imul r k => imulRaw s r k
 
 /-- `HistoryManager.reset`: newest first; an undo function that raises ends the replay -/
 def replay (s : St) : List Undo → St × Option Err
@@ -288,6 +340,9 @@ inductive Op where
   | addMets (r : Id) (ps : List (Id × Rat)) (combine : Bool) (neg : Bool)   -- neg = subtract_metabolites
   | removeRxn (r : Id)
   | addRxn (r : Id) (lb ub : EB) (ps : List (Id × Rat))
+  | addMet (m : Id)
+  | rmMet (m : Id)
+  | imul (r : Id) (k : Rat)
   | enter
   | exit
 
@@ -379,6 +434,35 @@ def addRxn (y : Sys) (r : Id) (lb ub : EB) (ps : List (Id × Rat)) : Sys :=
   let y1 := if inCtx y then push y (.putSlot r (y.s.hasR r) (getSlot y.s r)) else y
   { y1 with s := addRxnRaw y.s r lb ub ps }
 
+/-- `model.add_metabolites([Metabolite(m)])` for an id that is new to the model -/
+def addMet (y : Sys) (m : Id) : Sys :=
+  let y1 := if inCtx y then push y (.putMetSlot m (getMetSlot y.s m)) else y
+  { y1 with s := addMetRaw y.s m }
+
+/-- the loop of `remove_metabolites` over the reactions that list the metabolite (taken in pool order; the bodies touch different reactions):
+    `the_reaction.subtract_metabolites({x: the_reaction._metabolites[x]})`, context-aware -/
+def rmMetLoop (m : Id) : List Id → Sys → Sys
+  | [], y => y
+  | r :: rs, y =>
+    if y.s.mr m r then rmMetLoop m rs (addMets y r [(m, y.s.st r m)] true true).1
+    else rmMetLoop m rs y
+
+/-- `model.remove_metabolites([m], destructive=False)` -/
+def rmMet (y : Sys) (m : Id) : Sys :=
+  let y1 := rmMetLoop m y.s.univR y
+  let y2 := if inCtx y1 then push y1 (.putMetSlot m (getMetSlot y1.s m)) else y1
+  { y2 with s := dropMetRaw y1.s m }
+
+/-- `reaction *= k` -/
+def imul (y : Sys) (r : Id) (k : Rat) : Sys × Option Err :=
+  let y1 : Sys := { y with s := scaleSt y.s r k }
+  let p : Sys × Option Err := if k < 0 then setBounds y1 r (y1.s.ub r).neg (y1.s.lb r).neg else (y1, none)
+  match p.2 with
+  | some e => (p.1, some e)
+  | none =>
+    let y3 : Sys := { p.1 with s := populateRaw p.1.s r }
+    (if inCtx y3 then push (push y3 (.populate r)) (.imul r (1 / k)) else y3, none)
+
 def enter (y : Sys) : Sys := { y with ctx := [] :: y.ctx }
 
 def exit (y : Sys) : Sys × Option Err :=
@@ -405,6 +489,14 @@ def apply (y : Sys) : Op → Sys × Option Err
     else if y.s.hasR r then (y, none)                  -- an id that is taken: the reaction is ignored (a warning is logged)
     else if decide (r ∈ y.s.univR) && freshNames y.s r && ps.all (fun p => y.s.hasM p.1 && decide (p.2 ≠ 0)) then (addRxn y r lb ub ps, none)
     else (y, some .type)                               -- outside the modelled fragment (never sent by the harness)
+  | .addMet m =>
+    if y.s.hasM m then (y, none)                       -- an id that is taken: filtered out, nothing happens
+    else (addMet y m, none)
+  | .rmMet m => if y.s.hasM m then (rmMet y m, none) else (y, none)       -- metabolites that are not in the model are filtered out
+  | .imul r k =>
+    if !y.s.hasR r then (y, some .key)
+    else if k = 0 then (y, some .type)                 -- outside the modelled fragment (never sent by the harness)
+    else imul y r k
   | .enter => (enter y, none)
   | .exit => exit y
 
